@@ -509,4 +509,39 @@ theorem ext12_frame (w h : Int) (q : List Int) (dc ac : HuffTable) (scan : List 
       simp only [foldSteps, s0, s1, s2', s3, s4, Option.bind, dhtOf])
     (by simp) (by simp [parseSos, parseSels, scanOk, hasDht, findDqt, dhtOf]) rfl rfl (by simp [ScanOk, hs]) hne
 
+/-! ## bridge to C03's GolombWriter theorem -/
+
+/-- the shape of C03's `Golomb.Stuffed` (every 0xFF that has a successor is followed by a byte < 0x80) -/
+def PairStuffed : List Nat → Prop
+  | a :: b :: rest => (a = 255 → b < 128) ∧ PairStuffed (b :: rest)
+  | _ => True
+
+/-- BRIDGE to C03: pairwise stuffing + all bytes < 256 + "does not end on 0xFF" is `NoMarkerLS`. -/
+theorem noMarkerLS_of_pairStuffed : ∀ (out : List Nat), PairStuffed out → (∀ b ∈ out, b < 256) →
+    out.getLast? ≠ some 255 → NoMarkerLS out = true := by
+  intro out
+  induction out using NoMarkerLS.induct with
+  | case1 => intros; rfl
+  | case2 => intro _ _ h; simp at h
+  | case3 b2 rest ih =>
+    intro hs hb hl
+    have h1 : b2 < 128 := hs.1 rfl
+    cases rest with
+    | nil => simp [NoMarkerLS, h1]
+    | cons c r =>
+      have hs2 : PairStuffed (c :: r) := hs.2.2
+      have := ih hs2 (fun x hx => hb x (by simp [hx])) (by simpa [List.getLast?_cons_cons] using hl)
+      simp [NoMarkerLS, h1, this]
+  | case4 b rest hb' ih =>
+    intro hs hb hl
+    have hb256 : b < 256 := hb b (by simp)
+    cases rest with
+    | nil => simp [NoMarkerLS, hb', hb256]
+    | cons c r =>
+      have hs2 : PairStuffed (c :: r) := hs.2
+      have := ih hs2 (fun x hx => hb x (by simp [hx])) (by simpa [List.getLast?_cons_cons] using hl)
+      rw [NoMarkerLS.eq_def]
+      simp [hb', hb256]
+      cases r <;> simpa [NoMarkerLS] using this
+
 end JpegC
